@@ -364,6 +364,9 @@ type fakeProc struct {
 	scope int // -1 = before the fan-out, d = in the branch of destination d
 	spec  ProcSpec
 	gated bool
+
+	mu    sync.Mutex
+	holed map[[2]int]bool // records of spec.Hole that were left unanswered once
 }
 
 func (p *fakeProc) Open(context.Context) error     { return nil }
@@ -371,12 +374,42 @@ func (p *fakeProc) Teardown(context.Context) error { return nil }
 
 func (p *fakeProc) Process(ctx context.Context, recs []opencdc.Record) []sdk.ProcessedRecord {
 	if p.gated {
-		_ = p.x.sched.Park(ctx, "P"+p.id, false, nil)
+		slow := false
+		for _, r := range recs {
+			if s, k := idOf(r); inSet(p.spec.SlowRecs, s, k) {
+				slow = true
+			}
+		}
+		if slow {
+			_ = p.x.sched.ParkLast(ctx, "P"+p.id+"!", nil)
+		} else {
+			_ = p.x.sched.Park(ctx, "P"+p.id, false, nil)
+		}
 	}
-	out := make([]sdk.ProcessedRecord, len(recs))
+	n := len(recs)
+	if p.spec.Cap > 0 && n > p.spec.Cap {
+		n = p.spec.Cap // the rest is not answered at all: a short reply
+	}
+	out := make([]sdk.ProcessedRecord, n)
 	var evs []Ev
-	for i, r := range recs {
+	short := n < len(recs)
+	for i, r := range recs[:n] {
 		s, k := idOf(r)
+		if inSet(p.spec.Hole, s, k) {
+			p.mu.Lock()
+			first := !p.holed[[2]int{s, k}]
+			if first {
+				if p.holed == nil {
+					p.holed = map[[2]int]bool{}
+				}
+				p.holed[[2]int{s, k}] = true
+			}
+			p.mu.Unlock()
+			if first {
+				short = true
+				continue // out[i] stays nil: to be handed over again
+			}
+		}
 		switch {
 		case inSet(p.spec.Filter, s, k):
 			out[i] = sdk.FilterRecord{}
@@ -396,6 +429,9 @@ func (p *fakeProc) Process(ctx context.Context, recs []opencdc.Record) []sdk.Pro
 	}
 	if len(evs) > 0 {
 		p.x.log.Add(evs...)
+	}
+	if short {
+		p.x.retries.Add(1)
 	}
 	return out
 }
@@ -540,5 +576,6 @@ func RunV2(c Case, deadline time.Duration) Obs {
 	o.RunID = x.log.id
 	o.Results = results
 	o.Released = x.sched.Released()
+	o.Retries = int(x.retries.Load())
 	return o
 }
